@@ -6,8 +6,9 @@
 (***************************************************************************)
 EXTENDS Naturals, Sequences, FiniteSets, TLC
 
-Seg      == {"a", "b", ".", "..", ""}
-Ordinary == {"a", "b"}
+\* "c\\..\\d": ONE segment - on this OS a backslash is a character like any other, not a separator
+Seg      == {"a", "b", ".", "..", "", "c\\..\\d"}
+Ordinary == {"a", "b", "c\\..\\d"}
 
 Entries  == {"GetTemplate", "extends", "import", "include", "includeData",
              "exec", "includeIfExists", "ParseExtends"}
